@@ -34,6 +34,8 @@ TRUSTED = [
 ASSUMPTIONS = [
     "level is partial by nature: the theorems quantify over all interleavings of the MODELLED events (child put / recv / reply, parent queue pop, each terminate() call, each kill taking effect, each query send/receive); they cannot exhibit OS scheduling, SIGTERM delivery latency, or corruption of the multiprocessing Queue / Connection byte streams when a process is terminated in the middle of a write or two processes read the same Connection concurrently",
     "model_from_winner and no_stuck_state assume latency=false (a process with a pending default-action SIGTERM performs no further action), which is what Linux does; with latency=true the model has a reachable deadlock and a loser can serve the query (theorems no_stuck_state_latency_refuted, responder_not_winner_under_latency): a consequence of all children sharing ONE control pipe, not reproduced on the implementation",
+    "the model is the protocol as repaired by build/fixes/C19_all_fail_raise.diff + C19_silent_death.diff (failure counter and liveness poll in _solve); on a tree without the repair the all-members-fail scenarios hang and are reported",
+    "the liveness poll is modelled as one atomic event (queue empty and no member process alive); the implementation evaluates is_alive() BEFORE the timed get(), and a process that is no longer alive has flushed its queue message, so the two observations together imply the atomic condition",
     "one model run = one _solve round plus the queries of that round; rounds of a repeated solve use fresh channels and are modelled independently (the stale _ext_solver kept across a raising solve is not modelled; get_model after an unsat or raising solve is API misuse and not exercised)",
     "exit_on_exception=True makes the first exception win by design: failures_ignored is stated for exit_on_exception=False, and an error from a member that really raised is accepted when the option is on",
     "members agree on the verdict (hypothesis of verdict_agreed); a member that answers wrongly is outside the property",
@@ -452,7 +454,7 @@ def analyse(sc, evs, hung, rc):
         if r["state"] == "hang_solve":
             obs = "OBlockedSolve"
         elif r["state"] == "error":
-            obs = "(OError %d)" % r["member"] if r["member"] is not None else None
+            obs = "(OError %d)" % r["member"] if r["member"] is not None else ("ONoAnswer" if r.get("noanswer") else None)
         elif r["state"] == "hang_query":
             obs = "(OBlockedQuery %s %d %s)" % (lib.coq_bool(r["res"]), r["winner"], lib.coq_list([str(x) for x in r["resp"]]))
             script = script[:len(r["resp"]) + 1]
@@ -503,12 +505,16 @@ def analyse(sc, evs, hung, rc):
             if "err" in e:
                 cur["state"] = "error"
                 cur["member"] = e.get("member")
-                if e.get("member") is None or modes[e["member"]] not in ("raise", "unknown"):
+                if e.get("member") is None and e["err"] == "InternalSolverError":
+                    # "nobody is left": legitimate exactly when no member answers
+                    cur["noanswer"] = True
+                    if answering:
+                        problems.append(("failure-changed-verdict", "solve raised InternalSolverError although members %s answer" % answering))
+                elif e.get("member") is None or modes[e["member"]] not in ("raise", "unknown"):
                     problems.append(("error-not-from-member", "solve raised %s which no member raised" % e["err"]))
-                elif not eoe and answering:
+                elif answering and not eoe:
                     problems.append(("failure-changed-verdict", "solve raised member %d's exception although members %s answer and exit_on_exception is off" % (e["member"], answering)))
-                elif not eoe:
-                    pass            # every member fails and the call reports an error: what the property asks
+                # otherwise: exit_on_exception, or every member fails and the call reports an error
                 exp = "SolverReturnedUnknownResultError" if e.get("member") is not None and modes[e["member"]] == "unknown" else "RuntimeError"
                 if e.get("member") is not None and e["err"] != exp:
                     problems.append(("wrong-exception", "solve raised %s, member %d raised %s" % (e["err"], e["member"], exp)))
@@ -695,9 +701,10 @@ def scenarios(rnd, tier):
     def sc(modes, delays, eoe, shape, tag):
         out.append({"members": [{"mode": m, "delay_ms": d} for m, d in zip(modes, delays)], "eoe": eoe,
                     "ops": make_ops(rnd, shape), "tag": tag})
-    # 0. the Coq witness of all_fail_reports_refuted, replayed on the implementation
-    sc(["raise", "unknown"], [0, 0], False, "short", "witness:all_fail_reports_refuted")
-    sc(["exit", "exit"], [0, 0], True, "short", "witness:all_exit_blocks_even_with_eoe")
+    # 0. the configurations of the two repaired findings (Example all_fail_reports_examples)
+    sc(["raise", "unknown"], [0, 0], False, "short", "witness:all-members-raise")
+    sc(["exit", "raise", "exit"], [0, 0, 0], False, "short", "witness:some-silently")
+    sc(["exit", "exit"], [0, 0], True, "short", "witness:all-exit")
     # 1. every assignment of {answer, reporting failure, silent failure} to 2 and 3 members
     for n in (2, 3):
         for kinds in itertools.product("ARS", repeat=n):
@@ -826,7 +833,7 @@ def report_problems(chk, sc, evs, hung, problems, rounds):
         if key == LATENCY_KEY:
             replay["model_witness"] = "coq: no_stuck_state_latency_refuted / responder_not_winner_under_latency (proofs/Portfolio_proofs.v)"
         elif key in KNOWN_KEYS:
-            replay["model_witness"] = "coq: all_fail_blocks / all_fail_reports_refuted (proofs/Portfolio_proofs.v)"
+            replay["model_witness"] = "coq: all_fail_reports (proofs/Portfolio_proofs.v) holds of the repaired protocol; this tree blocks"
         n += 1 if chk.violation(replay, key=k) else 0
     return n
 
